@@ -11,7 +11,9 @@ RULE = ('cases = generated DSG spec x encoder x a history of up to 4 fix/free op
         'single (variable, value) fixes are covered by the first operation over the campaign); after every operation: the '
         'fixed variables are gone from des_vars, the restricted enumeration (COMPLETE) is compared with the filtered unfixed '
         'enumeration (rows with the variable active at that value must stay, rows with it active at another value must go, '
-        'no new rows), get_n_valid_designs(with_fixed) == rows, every decode lands in the restricted set; after freeing '
+        'no new rows), get_n_valid_designs(with_fixed) == rows, every decode lands in the restricted set and equals what the '
+        'never-fixed problem decodes for the full vector with the fixed values inserted (architecture, corrected values, '
+        'activeness; compared whenever that decode has every fixed variable active at its value); after freeing '
         'everything enumeration and decodes equal the originals; fixing a connection variable / an out-of-range value must '
         'raise and leave the state unchanged; one evaluation = one operation; non-trivial = a conditionally active '
         'variable is fixed and a decode happens between fix and free; distinct by sha1(spec, encoder, history)')
@@ -78,6 +80,36 @@ def check_case(case):
     fixed = {}   # index in all_vars -> value
     n_ops = 0
     cond_fixed_with_decode = False
+    ref_obs = {'o': None}
+
+    def same_as_unfixed(x_now, rec, free_idx_, dd_):
+        """Differential oracle: decoding the free part must give what the never-fixed problem gives for the full vector
+        (fixed values inserted), whenever that decode keeps the fixed variables at their values (or inactive)"""
+        if ref_obs['o'] is None:
+            from .c05 import _fresh
+            ref_obs['o'] = _fresh(spec, enc, {})
+        x_full = [None]*len(all_vars)
+        for k, i_ in enumerate(free_idx_):
+            x_full[i_] = x_now[k]
+        for i_, vv in fixed.items():
+            x_full[i_] = vv
+        ref = decode_one(ref_obs['o'], ref_obs['o'].gp, x_full)
+        if ref['exc'] is not None:
+            return
+        if any((not ref['active'][i_]) or float(ref['x_corr'][i_]) != float(vv) for i_, vv in fixed.items()):
+            # the unfixed problem corrects a fixed variable away from its value (not comparable), or the variable is
+            # inactive there: the statement allows, but does not require, such designs to stay in the restricted problem
+            return
+        exp_x = [ref['x_corr'][i_] for i_ in free_idx_]
+        exp_a = [ref['active'][i_] for i_ in free_idx_]
+        if proc.rec_key(rec) != proc.rec_key(ref):
+            res.add(viol('fixed_decode_differs_from_unfixed', f'fixed={dd_["fixed"]} x={x_now}: the never-fixed problem '
+                                                              f'decodes the full vector {x_full} to another architecture',
+                         data=dd_))
+        elif [float(v_) for v_ in rec['x_corr']] != [float(v_) for v_ in exp_x] or list(rec['active']) != list(exp_a):
+            res.add(viol('fixed_decode_differs_from_unfixed', f'fixed={dd_["fixed"]} x={x_now}: corrected '
+                                                              f'{rec["x_corr"]}/{rec["active"]} but the never-fixed problem '
+                                                              f'gives {exp_x}/{exp_a} for {x_full}', data=dd_))
     for op, a, v in case['ops']:
         n_ops += 1
         free_idx = [i for i in range(len(all_vars)) if i not in fixed]
@@ -206,6 +238,11 @@ def check_case(case):
                 if tuple(float(rec['x_corr'][k]) for k in disc_now) not in rows_disc:
                     res.add(viol('decode_outside_restricted_set', f'fixed={dd["fixed"]} x={x} -> {rec["x_corr"]}', data=dd))
                     break
+                if fixed:
+                    n_before = len(res.violations)
+                    same_as_unfixed(x, rec, free_idx, dd)
+                    if len(res.violations) > n_before:
+                        break
         else:
             # FAST: decodes must respect the fixed value when the variable is active
             vec_now = lcg_vectors(meta_now, case.get('vseed', 0)+n_ops, 12) if meta_now else [[]]
@@ -217,6 +254,11 @@ def check_case(case):
                 if len(rec['x_corr']) != len(meta_now):
                     res.add(viol('decode_length_with_fixed', f'x={x} -> {rec["x_corr"]}', data=dd))
                     break
+                if fixed:
+                    n_before = len(res.violations)
+                    same_as_unfixed(x, rec, free_idx, dd)
+                    if len(res.violations) > n_before:
+                        break
         if len(res.violations) > 40:
             break
 
